@@ -442,6 +442,16 @@ impl Value {
         }
     }
 
+    /// The bytes given for a decimal that is backed by a fixed have to fill it.
+    fn validate_decimal_len(len: usize, inner: &InnerDecimalSchema) -> Option<String> {
+        match inner {
+            InnerDecimalSchema::Fixed(FixedSchema { size, .. }) if len != *size => Some(format!(
+                "The value's length ({len}) is different than the size ({size}) of the decimal's fixed"
+            )),
+            _ => None,
+        }
+    }
+
     /// Validates the value against the provided schema.
     pub(crate) fn validate_internal<S: Borrow<Schema> + Debug>(
         &self,
@@ -492,7 +502,9 @@ impl Value {
             (&Value::Float(_), &Schema::Double) => None,
             (&Value::Double(_), &Schema::Double) => None,
             (&Value::Bytes(_), &Schema::Bytes) => None,
-            (&Value::Bytes(_), &Schema::Decimal { .. }) => None,
+            (Value::Bytes(b), Schema::Decimal(DecimalSchema { inner, .. })) => {
+                Value::validate_decimal_len(b.len(), inner)
+            }
             (Value::Bytes(bytes), &Schema::Uuid(UuidSchema::Bytes)) => {
                 if bytes.len() != 16 {
                     Some(format!(
@@ -559,7 +571,9 @@ impl Value {
                 }
             }
             // TODO: check precision against n
-            (&Value::Fixed(_n, _), &Schema::Decimal { .. }) => None,
+            (Value::Fixed(_n, b), Schema::Decimal(DecimalSchema { inner, .. })) => {
+                Value::validate_decimal_len(b.len(), inner)
+            }
             (Value::String(s), Schema::Enum(EnumSchema { symbols, .. })) => {
                 if !symbols.contains(s) {
                     Some(format!("'{s}' is not a member of the possible symbols"))
